@@ -14,6 +14,8 @@
 //! B. FreeType's static `Round_*`/`SetSuperRound` reached through generated glyph programs run by the
 //!    linked FreeType interpreter (see `bytecode` below)  vs Model/FtRound.lean; the same fonts run
 //!    through skrifa's real hinter are compared to FreeType (oracle).
+//! D/E. generated fonts through the same differential: geometry fonts (src/c03_synth.rs) and random
+//!    well-formed fpgm/prep/glyph programs (src/c03_ttfuzz.rs; triage tool: src/bin/c03_min.rs).
 //! C. the property itself, fauntlet style: static fonts of font-test-data × ppem × {unscaled,
 //!    unhinted, interpreter × {mono, normal, light, lcd, vertical lcd}}: path (after fauntlet's
 //!    RegularizingPen) and advance equal.
@@ -33,6 +35,8 @@ use std::os::raw::c_long;
 mod bytecode;
 #[path = "../c03_synth.rs"]
 mod synth;
+#[path = "../c03_ttfuzz.rs"]
+mod ttfuzz;
 
 extern "C" {
     fn FT_MulFix(a: c_long, b: c_long) -> c_long;
@@ -389,13 +393,48 @@ pub fn differential(cfg: &Config, s: &mut Session, path: &std::path::Path, ppems
                     s.count("diff:skip-not-scalable");
                     continue;
                 }
-                let is_scaled = ppem != 0;
-                let mut ft_outline: Vec<PathElement> = vec![];
-                let mut sk_outline: Vec<PathElement> = vec![];
-                for gid in 0..sk.glyph_count() {
-                    let gid = GlyphId::from(gid);
-                    ft_outline.clear();
-                    sk_outline.clear();
+                let glyph_count = sk.glyph_count();
+                if FRESH_INSTANCE_PER_GLYPH.load(std::sync::atomic::Ordering::Relaxed) {
+                    // FreeType keeps interpreter state in the size object (twilight zone, super-round
+                    // parameters …): with one face for all glyphs its output depends on which glyphs were
+                    // loaded before.  For generated programs every glyph gets a fresh pair of instances so
+                    // that both sides are a function of (font, glyph, size, mode).
+                    drop((ft, sk));
+                    for gid in 0..glyph_count {
+                        let Some((mut ft, mut sk)) = font.instantiate(&options) else {
+                            s.count("diff:instantiate-none");
+                            break;
+                        };
+                        compare_glyph(s, &mut ft, &mut sk, &name, index, ppem, mode, GlyphId::from(gid));
+                    }
+                } else {
+                    for gid in 0..glyph_count {
+                        compare_glyph(s, &mut ft, &mut sk, &name, index, ppem, mode, GlyphId::from(gid));
+                    }
+                }
+            }
+        }
+    }
+}
+
+pub static FRESH_INSTANCE_PER_GLYPH: std::sync::atomic::AtomicBool = std::sync::atomic::AtomicBool::new(false);
+
+#[allow(clippy::too_many_arguments)]
+fn compare_glyph(
+    s: &mut Session,
+    ft: &mut fauntlet::FreeTypeInstance,
+    sk: &mut fauntlet::SkrifaInstance,
+    name: &str,
+    index: usize,
+    ppem: u32,
+    mode: Option<Hinting>,
+    gid: GlyphId,
+) {
+    let is_scaled = ppem != 0;
+    let mut ft_outline: Vec<PathElement> = vec![];
+    let mut sk_outline: Vec<PathElement> = vec![];
+    {
+        {
                     let ft_adv = ft.outline(gid, &mut RegularizingPen::new(&mut ft_outline, is_scaled));
                     let sk_adv = catch(|| sk.outline(gid, &mut RegularizingPen::new(&mut sk_outline, is_scaled)));
                     let input = || format!("font={name}#{index} gid={} ppem={ppem} mode={}", gid.to_u32(), mode_name(mode));
@@ -439,8 +478,6 @@ pub fn differential(cfg: &Config, s: &mut Session, path: &std::path::Path, ppems
                             s.oracle("outline:skrifa-no-panic", false, input, || format!("panic {p}"));
                         }
                     }
-                }
-            }
         }
     }
 }
@@ -499,5 +536,6 @@ fn run(cfg: &Config, s: &mut Session) {
     hypot_oracle(cfg, s);
     bytecode::run(cfg, s);
     synth::run(cfg, s);
+    ttfuzz::run(cfg, s);
     outlines(cfg, s);
 }
